@@ -122,7 +122,7 @@ func runC10(args []string) {
 	r := core.NewRun("C10", "exploration")
 	r.Rule = "ReadFile executed in child processes behind a metering reader. (A) every string of <=3 tokens over a 60-spelling alphabet incl. malformed spellings " +
 		"(thorough: +length 4 over a 25-spelling core); (B) every prefix, single-byte deletion, and insertion/replacement from a 24-byte hostile alphabet of each corpus schema " +
-		"(quick: insertion/replacement at seeded offsets); (C) every reader-failure offset of each corpus schema x {1-byte reads, full reads} x 3 non-EOF error kinds. " +
+		"(quick: insertion/replacement at seeded offsets); (C) every reader-failure offset of each corpus schema x {1-byte reads, full reads} x 3 non-EOF error kinds, the failure persistent or transient (reported once, then EOF / then the remaining data). " +
 		"Oracle: no panic/runaway/CPU budget; reader fault => error; success => reader drained to EOF and ReadFile(x+NL+D) errors or contains D. " +
 		"distinct_nontrivial = distinct inputs accepted by ReadFile (completeness clause exercised) + distinct (schema, offset, chunking, error) fault cells."
 	r.Assume = []string{"D = a fresh struct definition preceded by a newline; CPU budget 20 s per ReadFile call"}
@@ -312,6 +312,7 @@ func runC10(args []string) {
 	type cell struct {
 		ci, k, chunk int
 		ek           string
+		after        string
 	}
 	var cells []cell
 	var ftexts [][]byte
@@ -326,8 +327,15 @@ func runC10(args []string) {
 					if !r.Thorough() && ek != "generic" && (k%5 != 0) {
 						continue
 					}
-					cells = append(cells, cell{ci, k, chunk, ek})
+					cells = append(cells, cell{ci, k, chunk, ek, ""})
 					ftexts = append(ftexts, src)
+					if ek == "generic" {
+						// transient failures: the error is reported once, then end of input / the rest of the data
+						for _, after := range []string{"eof", "resume"} {
+							cells = append(cells, cell{ci, k, chunk, ek, after})
+							ftexts = append(ftexts, src)
+						}
+					}
 				}
 			}
 		}
@@ -339,10 +347,13 @@ func runC10(args []string) {
 	core.Pool(nproc(), func(int) *core.Child { return feChild(bin) }, len(cells), func(i int) any {
 		c := cells[i]
 		return map[string]any{"op": "rf", "from": 0, "texts": []string{fmt.Sprintf("%x", ftexts[i])},
-			"reader": map[string]any{"chunk": c.chunk, "fail_at": c.k, "err": c.ek}}
+			"reader": map[string]any{"chunk": c.chunk, "fail_at": c.k, "err": c.ek, "after": c.after}}
 	}, func(i int, ch *core.Child, res core.Result) {
 		c := cells[i]
 		loc := map[string]string{"schema": names[c.ci], "chunk": fmt.Sprint(c.chunk), "err": c.ek}
+		if c.after != "" {
+			loc["after_failure"] = c.after
+		}
 		key := fmt.Sprintf("fault/%d/%d/%d/%s", c.ci, c.k, c.chunk, c.ek)
 		if res.Outcome != "post" || len(res.Res) == 0 {
 			if res.Outcome == "wall-watchdog" {
@@ -522,7 +533,7 @@ func c10Replay(r *core.Run, bin, path string) {
 	if strings.HasPrefix(rep.Clause, "reader-fault") {
 		chunk := 0
 		fmt.Sscan(rep.Locus["chunk"], &chunk)
-		x := run(rep.Detail.Schema, map[string]any{"chunk": chunk, "fail_at": rep.Detail.Offset, "err": rep.Locus["err"]})
+		x := run(rep.Detail.Schema, map[string]any{"chunk": chunk, "fail_at": rep.Detail.Offset, "err": rep.Locus["err"], "after": rep.Locus["after_failure"]})
 		if x != nil {
 			r.Eval("replay")
 			fmt.Printf("replay: outcome=%s err=%v %q\n", x.Outcome, x.HasErr, x.Err)
